@@ -224,12 +224,28 @@ fn acceptance(p: &Prog, cfg: &Cfg, rep: &mut Report, handlers: &[HandlerView]) {
             for cand in &cands {
                 rep.evaluations += 1;
                 let owner = mine.iter().find(|h| observed[&h.id].0 == *cand);
-                let body = match owner {
-                    Some(h) => body_of(h, &observed[&h.id].1),
-                    None => json!({}),
+                // a method's name is offered with a body of that method; a foreign name with
+                // every body shape a variant could take (unit-like, empty / sibling object, array)
+                let bodies: Vec<Value> = match owner {
+                    Some(h) => vec![body_of(h, &observed[&h.id].1)],
+                    None => {
+                        let mut b = vec![json!({}), Value::Null, json!([]), json!([null]), json!("")];
+                        if let Some(h) = mine.first() {
+                            b.push(body_of(h, &observed[&h.id].1));
+                        }
+                        b
+                    }
                 };
-                let doc = json!({ cand.as_str(): body });
-                let accepted = ops.from_json(doc.to_string().as_bytes()).is_ok();
+                let mut doc = json!({ cand.as_str(): bodies[0].clone() });
+                let mut accepted = false;
+                for body in &bodies {
+                    let d = json!({ cand.as_str(): body });
+                    if ops.from_json(d.to_string().as_bytes()).is_ok() {
+                        accepted = true;
+                        doc = d;
+                        break;
+                    }
+                }
                 rep.class(if owner.is_some() { "accept:method-name" } else { "accept:foreign-name" });
                 if owner.is_none() {
                     rep.nontrivial(&(&p.model.id, part, kind, cand));
